@@ -140,7 +140,7 @@ func runC10(c *core.Ctx) {
 				fmt.Sprintf("%s.Open opens the source without being on the ErrNotExist edge of the cache look-up of the same name (dominated=%v same-name=%v): a cached file would be re-read from the source, or another look-up failure would be papered over", tk, ok, sameName))
 		}
 		// R10.2
-		r10Rewind(c, p, sh)
+		r10Rewind(c, p, sh, "R10.2")
 		// R10.3
 		r10Memo(c, p, sh)
 		// R10.4
@@ -157,7 +157,7 @@ func runC10(c *core.Ctx) {
 	c.Floor("R10.4", 2)
 }
 
-func r10Rewind(c *core.Ctx, p *load.Program, sh *cacheShape) {
+func r10Rewind(c *core.Ctx, p *load.Program, sh *cacheShape, rule string) {
 	tk := typeKey(sh.named)
 	var fill *ssa.Call
 	var blk *ssa.BasicBlock
@@ -171,7 +171,7 @@ func r10Rewind(c *core.Ctx, p *load.Program, sh *cacheShape) {
 	}
 	key := tk + ".Open|rewind-after-fill"
 	if fill == nil {
-		c.Bad("R10.2", key, p.Pos(sh.open.Pos()), "Open no longer calls the fill function")
+		c.Bad(rule, key, p.Pos(sh.open.Pos()), "Open no longer calls the fill function")
 		return
 	}
 	init := ssax.NewPathState()
@@ -216,7 +216,7 @@ func r10Rewind(c *core.Ctx, p *load.Program, sh *cacheShape) {
 			bad = p.Pos(r.Pos())
 		},
 	})
-	c.Check(bad == "", "R10.2", key, p.Pos(fill.Pos()), "every handle returned after a fill was rewound successfully or re-opened from the cache",
+	c.Check(bad == "", rule, key, p.Pos(fill.Pos()), "every handle returned after a fill was rewound successfully or re-opened from the cache",
 		fmt.Sprintf("%s.Open: the return at %s hands out the source handle after it was read to the end by the fill, without a successful rewind or a re-open from the cache — the caller would read 0 bytes", tk, bad))
 }
 
@@ -301,12 +301,14 @@ func r10Dir(c *core.Ctx, p *load.Program, sh *cacheShape) {
 
 func runC11(c *core.Ctx) {
 	runFixtures(c, "drop", "locks")
-	c.Explain("Structural clauses of C11 decided from source: (R11.1) in the cache FS's Open, the cache look-up, the source open and the fill run after Lock(name) on the per-path lock and before its release, Lock and Unlock use the same key, the Unlock is deferred (or on every exit), the fill function has no caller outside that region, and the per-path lock obtains the mutex of a key with one atomic LoadOrStore; (R11.2) on every path on which the cache file was created and the fill then fails, the partial file is invalidated (removed from the cache FS) before the error is returned; (R11.3) the Close error of the cache file opened for writing takes part in the fill's result. (R11.4) the fill (and Open around it) reads no slice-typed field of the file system value: the lock held is per path, so a scratch buffer shared by all fills would be written by two fills at once. NOT claimed: interleavings of concurrent opens (only the lock discipline), a fault at every read/write index, cache stores that cannot remove files.")
+	c.Explain("Structural clauses of C11 decided from source: (R11.1) in the cache FS's Open, the cache look-up, the source open and the fill run after Lock(name) on the per-path lock and before its release, Lock and Unlock use the same key, the Unlock is deferred (or on every exit), the fill function has no caller outside that region, and the per-path lock obtains the mutex of a key with one atomic LoadOrStore; (R11.2) on every path on which the cache file was created and the fill then fails, the partial file is invalidated (removed from the cache FS) before the error is returned; (R11.3) the Close error of the cache file opened for writing takes part in the fill's result. (R11.4) the fill (and Open around it) reads no slice-typed field of the file system value: the lock held is per path, so a scratch buffer shared by all fills would be written by two fills at once. (R11.5) the dropped-error analysis over the fill function: the error of every step (creating directories, opening the cache file, the copy) reaches the fill's result on every path where it is non-nil; (R11.6 = R10.2) the handle returned after a fill was rewound successfully or re-opened from the cache. NOT claimed: interleavings of concurrent opens (only the lock discipline), a fault at every read/write index, cache stores that cannot remove files.")
 	c.Assume("A2: sync.Map.LoadOrStore is atomic; sync.Mutex semantics", "a cache store without RemoveFS cannot invalidate a partial file (stated limitation)")
 	c.RuleDoc("R11.1", "look-up + fill under the per-path lock")
 	c.RuleDoc("R11.2", "failed fill invalidates the partial cache file")
 	c.RuleDoc("R11.3", "Close error of the written cache file is not discarded")
 	c.RuleDoc("R11.4", "fills of different paths share no byte buffer")
+	c.RuleDoc("R11.5", "no error of a step of the fill is dropped")
+	c.RuleDoc("R11.6", "the handle returned after a fill starts at offset 0 (= R10.2)")
 	for _, p := range c.Progs {
 		c.SetProg(p)
 		sh := findCacheShape(p)
@@ -391,6 +393,18 @@ func runC11(c *core.Ctx) {
 					}
 				}
 			})
+			// the table of per-path mutexes only grows: deleting an entry while a goroutine is still queued on that
+			// mutex lets a newcomer create a second mutex for the same path and enter the critical section alongside
+			deletes := ""
+			for _, f := range pkgFuncs(p, "internal/pathlock") {
+				ssax.Instrs(f, func(ins ssa.Instruction) {
+					if cl, ok := ins.(*ssa.Call); ok && (ssax.CalleeIs(cl, "sync", "(*Map).Delete") || ssax.CalleeIs(cl, "sync", "(*Map).LoadAndDelete") || ssax.CalleeIs(cl, "sync", "(*Map).CompareAndDelete")) {
+						deletes = fname(f) + " at " + p.Pos(cl.Pos())
+					}
+				})
+			}
+			c.Check(deletes == "", "R11.1", "pathlock.Mutex|entries-never-deleted", p.Pos(lk.Pos()), "no per-path mutex is ever removed from the table",
+				fmt.Sprintf("the per-path lock table deletes entries (%s): a goroutine already queued on the removed mutex acquires it later while a newcomer stores a fresh mutex for the same path — two fills of one name run at once", deletes))
 			c.Check(n == 1 && other == 0, "R11.1", "pathlock.Mutex.Lock|atomic-get-or-create", p.Pos(lk.Pos()), "per-key mutex obtained with a single LoadOrStore",
 				"pathlock.Mutex.Lock does not obtain the per-key mutex with a single atomic LoadOrStore (separate Load/Store lets two goroutines lock two different mutexes for one path)")
 		} else {
@@ -399,7 +413,32 @@ func runC11(c *core.Ctx) {
 		// ---- R11.2 / R11.3 in the fill function ----
 		r11Fill(c, p, sh, "R11.2", "R11.3")
 		r11NoSharedBuffer(c, p, sh)
+		r10Rewind(c, p, sh, "R11.6")
+		// R11.5: no error of a step of the fill is dropped (a shadowed err in the copy branch loses the read or
+		// write fault: the fill reports success and the truncated file stays)
+		for _, f := range []*ssa.Function{sh.copy} {
+			bad, good := dropCheck(p, f, dropOpts{})
+			for _, g := range good {
+				c.OK("R11.5", g.Key, g.Pos, g.Msg)
+			}
+			for _, b := range bad {
+				switch b.Kind {
+				case "undecided":
+					c.Unknown("R11.5", b.Key, b.Pos, b.Msg)
+				case "value-used-with-error":
+				case "discarded":
+					// Close/Remove results are R11.2/R11.3's matter
+					if strings.Contains(b.Msg, ".Close") || strings.Contains(b.Msg, "Remove") {
+						continue
+					}
+					c.Bad("R11.5", b.Key, b.Pos, b.Msg+" — the fill reports success although a step failed, and the incomplete cache file is served from then on")
+				default:
+					c.Bad("R11.5", b.Key, b.Pos, b.Msg+" — the fill reports success although a step failed, and the incomplete cache file is served from then on")
+				}
+			}
+		}
 	}
+	c.Floor("R11.5", 3)
 	c.Floor("R11.4", 1)
 	c.Floor("R11.1", 2)
 	c.Floor("R11.2", 1)
